@@ -567,13 +567,21 @@ def correspondence(ctx, rule):
         for o in outs:
             if not cons_zone(o).feasible():
                 continue
-            # installing a part stream
+            # installing a part stream: the value stored into the current-part field on this path (it may be polled in the
+            # same turn, so the field's final value is not necessarily the freshly built stream any more)
             cur2 = final_read(ctx, o, SELF, (("f", roles["cur"]),))
+            installs = [e["value"] for e in o.events if e["k"] == "write" and e.get("root") == SELF and e.get("path") == (("f", roles["cur"]),)
+                        and is_agg(e.get("value")) and e["value"][3] == "Some"]
+            if not (is_agg(cur2) and cur2[3] == "Some" and isinstance(agg_get(cur2, "0"), tuple) and agg_get(cur2, "0")[0] == "call"
+                    and "::new" in agg_get(cur2, "0")[1]) and installs:
+                cur2 = installs[-1]
             if is_agg(cur2) and cur2[3] == "Some" and isinstance(agg_get(cur2, "0"), tuple) and agg_get(cur2, "0")[0] == "call" \
                     and "::new" in agg_get(cur2, "0")[1]:
                 els = agg_get(cur2, "0")
                 stt = read_pos(ctx, o, roles)
                 hcur = stt[1] if isinstance(stt, tuple) and stt[0] == "pack" else None
+                if installs and not cs and p == 1:
+                    hcur = H      # installed at the position the step was entered with
                 ok = False
                 if isinstance(els, tuple) and els[0] == "call" and "::new" in els[1]:
                     budget, stream = els[2][0], els[2][1]
